@@ -241,6 +241,11 @@ def main():
                 ('decl', 'auto', [('gv_first', call0(('id', 'Policy::dispatch_data'), 'data'))]),
                 ('decl', 'auto', [('gv_last', ('bin', '+', ('id', 'gv_first'), call0(('id', 'Policy::dispatch_data'), 'size')))]),
                 ('decl', 'auto', [('gv_iter', ('id', 'gv_first'))])]
+        # after resize(n) the vector's size() is n: gv_first + n is the same pointer
+        alt = list(want)
+        alt[2] = ('decl', 'auto', [('gv_last', ('bin', '+', ('id', 'gv_first'), ('id', size_var)))])
+        if top[i:i + 4] == alt:
+            top = top[:i] + want + top[i + 4:]
         if top[i:i + 4] != want:
             raise mc.Unsupported('install_gv: no longer `dispatch_data.resize(size); gv_first = data(); gv_last = gv_first + size(); gv_iter = gv_first;`')
         rest = top[i + 4:]
